@@ -237,6 +237,49 @@ def run(c, chk):
             chk.ok('R17.7', 'cfg_tilde_expand: %d lookups' % nuser, 'getpwnam(filename[1 .. rest)) with rest = the part appended to the home directory', sample=True)
     chk.floor('R17.7 user lookups', nuser, 1)
 
+    # ---- R17.10: "~" and "~/x" mean the caller's own home: no lookup of a user with an empty name ---------
+    chk.rule('R17.10', 'getpwnam() is reached only when the character after the tilde was shown to be neither the end of the name nor a slash (a bare "~" or "~/x" is the current user)')
+    nlook = 0
+    badp = None
+    for p in ex.explore(te):
+        gp = [e for e in p.events if e.kind == 'call' and e.name == 'getpwnam']
+        if not gp:
+            continue
+        nlook += 1
+        seq = gp[0].seq
+
+        def second(v):
+            return sym.mentions(v, lambda x: x[0] == 'ld' and x[1] == ('idx', ('p', 'filename'), ('c', 1)))
+        ne = set()
+        for cn, t, _ in p.assume[:seq]:
+            if cn[0] == 'icmp' and cn[1] in ('eq', 'ne') and sym.is_const(cn[3]) and second(cn[2]) and ((cn[1] == 'ne') == t):
+                ne.add(cn[3][1] & 0xff)
+            if cn[0] == 'switch-default' and second(cn[1]):
+                ne |= set(k & 0xff for k in p.neq.get(cn[1], ()))
+        # a '/' found by strchr(filename, '/') on this path: the name is longer than "~"; and if that place is not filename+1, the second character is no slash
+        sl = [e for e in p.events[:p.events.index(gp[0])] if e.kind == 'call' and e.name == 'strchr' and e.args[0] == ('p', 'filename') and e.args[1] == ('c', 47)]
+        for e in sl:
+            for cn, t, _ in p.assume[:seq]:
+                na = fp.is_null_assumption(cn, t)
+                if na and na[0] == e.res:
+                    if na[1]:
+                        ne.add(47)           # no slash anywhere
+                    else:
+                        ne.add(0)            # a slash somewhere behind the tilde: the name does not end after it
+                if cn[0] == 'icmp' and cn[1] in ('eq', 'ne') and ((cn[1] == 'ne') == t) and \
+                        {sym.norm(cn[2]), sym.norm(cn[3])} == {sym.norm(e.res), ('idx', ('p', 'filename'), ('c', 1))}:
+                    ne.add(47)
+        if not {0, 47} <= ne:
+            badp = badp or (p, gp[0], ne)
+    if badp is not None:
+        p, g, ne = badp
+        chk.fail('R17.10', 'tilde-empty-user', c.where(g.ins), 'getpwnam() can be reached although the character after the tilde was not shown to differ from %s (%s): '
+                 'a bare "~"%s is looked up as a user with an empty name, fails, and stays unexpanded' %
+                 (' and '.join(x for x, k in (('the end of the name', 0), ('a slash', 47)) if k not in ne), fp.cond_text(p, 4), '' if 0 not in ne else ' or "~/x"'))
+    elif nlook:
+        chk.ok('R17.10', 'cfg_tilde_expand: %d paths to getpwnam()' % nlook, 'each has established filename[1] != 0 and filename[1] != \'/\'', sample=True)
+    chk.floor('R17.10 paths to getpwnam()', nlook, 1)
+
     # ---- R17.8: the file system is consulted when a name is looked up, not when a directory is registered ---
     chk.rule('R17.8', 'registering a search directory does not look at the file system (only the lookup does): resolution depends on the file system at lookup time')
     FS = ('stat', 'lstat', '__xstat', '__lxstat', 'access', 'faccessat', 'fopen', 'open', 'opendir', 'fstat', '__fxstat', 'realpath')
